@@ -385,6 +385,9 @@ func siZoo(rng *rand.Rand, n int) map[string]interface{} {
 	}
 	for i := range nested {
 		nested[i] = []int32{int32(i), 1, 2}
+		if i%3 == 1 {
+			nested[i] = []int32{} // an empty row
+		}
 	}
 	ss := map[string]string{}
 	sp := map[string]*ZInner{}
@@ -523,6 +526,18 @@ func siC01(r *siReport) {
 			}
 			if r.id != "C01" && strings.HasPrefix(name, "toplevel-map/") {
 				continue // the lost dynamic type is C01's finding; the scalars inside were compared just above
+			}
+			// the same value with its lists sent untyped (no list names in the name map): still the same value
+			switch name {
+			case "lists", "nested-containers", "element-kinds", "struct-fields", "pointer-lists":
+				un := "untyped-lists/" + cn
+				if uout, uerr := siRoundTripUntyped(v); uerr != nil {
+					r.fail(un, uerr.Error())
+				} else if !siEqual(v, uout) {
+					r.fail(un, fmt.Sprintf("decoded value differs (type %T)", uout))
+				} else {
+					r.ok(un)
+				}
 			}
 			if !siEqual(v, out) {
 				r.fail(cn, fmt.Sprintf("decoded value differs (type %T)", out))
@@ -1063,6 +1078,11 @@ func siPermutations(n int) [][]int {
 	return res
 }
 
+type ZShadow struct {
+	name string
+	Name string
+	B    int32
+}
 type ZHid struct {
 	A      int32
 	hidden int32
@@ -1196,6 +1216,22 @@ func siC05(r *siReport) {
 			r.fail("unexported-go-field", fmt.Sprintf("got %+v", out))
 		} else {
 			r.ok("unexported-go-field")
+		}
+	}
+	// an unexported Go field does not hide the exported field of the same name up to the first letter
+	{
+		w := &siW{}
+		w.WriteByte('C')
+		w.str("ZShadow").i(2).str("name").str("b")
+		w.WriteByte(0x60)
+		w.str("n").i(7)
+		out, err := ToObject(w.Bytes(), map[string]reflect.Type{"ZShadow": reflect.TypeOf(ZShadow{})})
+		if err != nil {
+			r.fail("exported-field-after-unexported-namesake", err.Error())
+		} else if g, ok := out.(*ZShadow); !ok || g.Name != "n" || g.B != 7 {
+			r.fail("exported-field-after-unexported-namesake", fmt.Sprintf("got %+v", out))
+		} else {
+			r.ok("exported-field-after-unexported-namesake")
 		}
 	}
 	// an unknown field whose value belongs to a class (or list/map type) the type map does not know: a newer peer's extra field
@@ -1548,7 +1584,11 @@ type ZUnexported struct {
 }
 
 func siC13(r *siReport) {
-	bads := map[string]interface{}{"chan": make(chan int), "func": func() {}, "complex": complex(1, 2), "uintptr-like-complex64": complex64(1), "nil-chan": (chan int)(nil),
+	debug.SetMaxStack(256 << 20)
+	cyc := map[string]interface{}{}
+	cyc["self"] = cyc
+	var cycIface interface{} = cyc
+	bads := map[string]interface{}{"pointer-to-interface-holding-a-map-that-contains-itself": &cycIface, "chan": make(chan int), "func": func() {}, "complex": complex(1, 2), "uintptr-like-complex64": complex64(1), "nil-chan": (chan int)(nil),
 		"nan-keyed-map":    map[float64]string{math.NaN(): "x", 1: "y"},
 		"unexported-field": ZUnexported{A: 1, b: "x"}, "ptr-unexported-field": &ZUnexported{A: 2, b: "y"}}
 	var bnames []string
@@ -1731,6 +1771,19 @@ func siC14(r *siReport) {
 	try("cyclic/map-into-self-typed-map-field", []byte{0x43, 0x01, 0x48, 0x91, 0x04, 0x76, 0x61, 0x6c, 0x73, 0x60, 0x48, 0x01, 0x61, 0x51, 0x91, 0x5a}, map[string]reflect.Type{"H": reflect.TypeOf(struct{ Vals ZNestMap }{})})
 	try("cyclic/map-into-self-in-typed-list-field", []byte{0x43, 0x01, 0x48, 0x91, 0x04, 0x76, 0x61, 0x6c, 0x73, 0x60, 0x79, 0x48, 0x01, 0x61, 0x51, 0x92, 0x5a}, map[string]reflect.Type{"H": reflect.TypeOf(struct{ Vals []ZNestMap }{})})
 	try("cyclic/list-in-map-into-self-typed-field", []byte{0x43, 0x01, 0x48, 0x91, 0x04, 0x76, 0x61, 0x6c, 0x73, 0x60, 0x79, 0x48, 0x01, 0x61, 0x51, 0x91, 0x5a}, map[string]reflect.Type{"H": reflect.TypeOf(struct{ Vals []map[string][]ZNestMap }{})})
+	{
+		// L0 = [L1, ref L1], L1 = [L2, ref L2], ... converted to a named list type: the work must not double per level
+		depth := 40
+		in := []byte{0x43, 0x01, 0x48, 0x91, 0x04, 0x76, 0x61, 0x6c, 0x73, 0x60}
+		for i := 0; i < depth; i++ {
+			in = append(in, 0x7a) // untyped list of 2: the next list and a reference to it
+		}
+		in = append(in, 0x79, 'N') // innermost: a list of one null
+		for i := depth - 1; i >= 0; i-- {
+			in = append(in, 0x51, 0x90+byte(i+2)) // ref to list #(i+2): the object is #0, L0 is #1, L(i+1) is #(i+2)
+		}
+		try("amplification/lists-referenced-twice-at-every-level", in, map[string]reflect.Type{"H": reflect.TypeOf(struct{ Vals ZNestList }{})})
+	}
 	try("cyclic/map-in-list-in-map-into-typed-field", []byte{0x43, 0x01, 0x48, 0x91, 0x04, 0x76, 0x61, 0x6c, 0x73, 0x60, 0x48, 0x01, 0x6b, 0x79, 0x51, 0x91, 0x5a}, map[string]reflect.Type{"H": reflect.TypeOf(struct{ Vals ZBag }{})})
 	try("cyclic/list-in-map-in-list-into-typed-field", []byte{0x43, 0x01, 0x48, 0x91, 0x04, 0x76, 0x61, 0x6c, 0x73, 0x60, 0x79, 0x48, 0x01, 0x6b, 0x51, 0x91, 0x5a}, map[string]reflect.Type{"H": reflect.TypeOf(struct{ Vals []ZBag }{})})
 	try("selfptr/field-of-pointer-type-leading-into-a-pointer-loop", []byte{0x43, 0x01, 0x48, 0x91, 0x01, 0x70, 0x60, 0x4e}, map[string]reflect.Type{"H": reflect.TypeOf(struct{ P ZEntry }{})})
@@ -1887,6 +1940,10 @@ type ZOwnNamedEmb struct {
 
 func (ZOwnNamedEmb) HessianCodecName() string { return "com.zoo.OwnNamedEmb" }
 
+type ZEmptyName struct{ A int32 }
+
+func (ZEmptyName) HessianCodecName() string { return "" }
+
 type ZTable map[string]int32
 
 func (ZTable) HessianCodecName() string { return "com.zoo.Table" }
@@ -2022,6 +2079,29 @@ func siC16(r *siReport) {
 		} else {
 			r.ok("typemapof-time-behind-" + name)
 		}
+	}
+	// a value that is a cycle of pointers and interfaces only; a custom name that is empty
+	{
+		var cyc interface{}
+		cyc = &cyc
+		done := make(chan struct{})
+		go func() { ExtractTypeNameMap(cyc); ExtractTypeNameMap(&struct{ X interface{} }{cyc}); close(done) }()
+		select {
+		case <-done:
+			r.ok("cyclic-value/pointer-to-interface-holding-itself")
+		case <-time.After(10 * time.Second):
+			r.fail("cyclic-value/pointer-to-interface-holding-itself", "did not terminate")
+		}
+		func() {
+			defer func() {
+				if x := recover(); x != nil {
+					r.fail("empty-custom-name", fmt.Sprintf("PANIC %v", x))
+				}
+			}()
+			ExtractTypeNameMap(&struct{ E ZEmptyName }{})
+			ExtractTypeNameMap([]ZEmptyName{{1}})
+			r.ok("empty-custom-name")
+		}()
 	}
 	// a named map or list type that declares a custom name keeps it when the sample holds nil there
 	for name, v := range map[string]interface{}{"zero-struct": ZTableHolder{}, "nil-pointer": (*ZTableHolder)(nil), "empty-list": []ZTable{}, "populated": &ZTableHolder{T: ZTable{"a": 1}, L: ZNamedList{1}}} {
